@@ -170,7 +170,7 @@ def run_check(pid, tier, seed=0, workers=None, only_job=None):
             task = (pid, job_idx, jobs[job_idx], prefixes, budget, known_ids, profile)
             results.append(pool.apply_async(worker_task, (task,)))
         for j in order:
-            submit(j, [[]], 4.0, True)
+            submit(j, [[]], 1.5, True)
         capped = False
         stop_on_violation = False
         while results:
